@@ -38,3 +38,18 @@ Print Assumptions C03_reverse_must_negate.
 Theorem C03_memo_slots_are_filled_only_by_parameter_free_members : receiver_writes_in_parameterised_members = [].
 Proof. exact no_parameterised_member_stores_on_its_receiver. Qed.
 Print Assumptions C03_memo_slots_are_filled_only_by_parameter_free_members.
+
+From LBG Require Import Base QGeom G0_vec G1_shapes.
+From Coq Require Import QArith Morphisms.
+
+(* Face3D.move hands the cached polygon2d / mesh2d to the moved face: the moved plane (generated Plane.move) keeps its axes, so a 2D point cached in the plane frame maps through the MOVED plane onto the
+   moved 3D point, and a moved point keeps its 2D coordinates *)
+From LBG Require Import C06_plane C02_planes C03_planemove.
+Theorem C03_cached_plane_coordinates_survive_a_move : forall qsqrt (sqrt_proper : Proper (Qeq ==> Qeq) qsqrt) (sqrt_one : (qsqrt 1 == 1)%Q) p m,
+  frame_ok p ->
+  (forall q, Plane_xy_to_xyz (Plane_move qsqrt p m) q =3= Point3D_move (Plane_xy_to_xyz p q) m) /\
+  (forall r, Plane_xyz_to_xy (Plane_move qsqrt p m) (Point3D_move r m) =2= Plane_xyz_to_xy p r).
+Proof.
+  intros qsqrt sp so p m F. split; [intros q; apply cached_2d_point_maps_to_the_moved_point; assumption | intros r; apply moved_point_keeps_its_2d_coordinates; assumption].
+Qed.
+Print Assumptions C03_cached_plane_coordinates_survive_a_move.
